@@ -430,6 +430,20 @@ let run_entry (b : backend) (s : Sexp.t) : string =
     (match emit_inline ftext b sc with Ok _ -> "OK" | Panic -> "PANIC")
   with Exit -> "PANIC"
 
+let run_inject (b : backend) (s : Sexp.t) : string =
+  try
+    let q = (match head s with
+      | "select" | "insert" | "update" | "delete" | "withq" -> subquery s
+      | _ -> QSelect (build_select [SCSelExpr (SelExpr (expr s, None, None))])) in
+    let sc = rquery is_alpha_rust b (tables_of !more_parens b) fuel q in
+    (match emit_inline ftext b sc, emit_params ftext b sc with
+     | Ok inl, Ok (sql, vals) ->
+         (match inject_parameters ftext is_alpha_rust b sql vals with
+          | Ok inj -> Printf.sprintf "%s %s" (hex_of_str inj) (hex_of_str inl)
+          | Panic -> "PANIC")
+     | _, _ -> "PANIC")
+  with Exit -> "PANIC"
+
 let run_expr (b : backend) (s : Sexp.t) : string =
   try render b (QSelect (build_select [SCSelExpr (SelExpr (expr s, None, None))]))
   with Exit -> "PANIC"
